@@ -18,7 +18,7 @@ CHECKS["C03"] = {"engine": "E1 schedule-space explorer", "technique": _T,
     "text": "every task-constraint class x boundary parameter grid x optional subsets on 2-3 task scenes plus the interaction alphabet (task attributes x resource set-ups x one further element): every admitted leaf must satisfy the class clause (S) and every leaf the reference calls valid must be admitted (K: constraints naming an unscheduled optional task must not bind); plus two-stage builds",
     "note": _N}
 CHECKS["C04"] = {"engine": "E1 schedule-space explorer", "technique": _T,
-    "text": "every resource-constraint class x parameter grid (interval lists, bounds x kinds, distances x modes, periods x offsets x masks, Same/Distinct lists) on plain workers, selections and cumulative workers; every admitted leaf judged by the class clause; plus two-stage builds",
+    "text": "every resource-constraint class x parameter grid (interval lists, bounds x kinds, distances x modes, periods x offsets x masks, two constraints of one class on one resource incl. two periodic ones of one period with different offsets / windows, Same/Distinct lists) on plain workers, selections and cumulative workers; every admitted leaf judged by the class clause; plus two-stage builds",
     "note": _N}
 CHECKS["C05"] = {"engine": "E1 schedule-space explorer", "technique": "explicit enumeration of the bounded box by the Python reference; every VALID point looked up in the exhaustively explored admitted set of the real solver object",
     "text": "direction K over the union of the alphabets: every box point the reference calls VALID is admitted by the implementation (re-checked as a fully pinned leaf), the verdict of the real solve() agrees with the explored set, lost schedules are attributed to a 1-minimal culprit and confirmed through the public API in a fresh process",
@@ -40,7 +40,7 @@ CHECKS["C07"] = {"engine": "E2 controlled solver", "technique": "stateless explo
     "text": "for 33+ objective programs (every built-in objective, user-indicator objectives over every indicator kind, same-direction pairs incl. weight 0) the achievable objective values come from an exhaustive E1 box exploration; the real incremental loop is then executed for EVERY strictly improving chain of models, for every max_iter, with `unknown` injected at every check index, one slow check at every index (virtual clock) and growing costs, with the solver object created before the declarations, with weights assigned after construction; z3.Optimize and weighted sums are compared with best* (z3.Optimize is not judged for optimality on non-linear cost objectives: recorded finding)",
     "note": _H}
 CHECKS["C08"] = {"engine": "E1 schedule-space explorer", "technique": _T + "; the indicator unknown is pinned to every value of a window around the reference value",
-    "text": "for every admitted leaf of ~220 (quick) indicator programs the set of admitted indicator values must be non-empty and inside the reference tolerance set (determined and equal to the definition), the reported value too; targets/bounds judged as constraints in both directions",
+    "text": "for every admitted leaf of ~240 (quick) indicator programs (incl. costs over several busy intervals / several workers of odd doubled area, cost functions declared as objects with an attribute assigned after construction) the set of admitted indicator values must be non-empty and inside the reference tolerance set (determined and equal to the definition), the reported value too; targets/bounds judged as constraints in both directions",
     "note": _N}
 CHECKS["C09"] = {"engine": "E1 schedule-space explorer", "technique": _T + " (time-ordered reference walk)",
     "text": "~1500 (quick) buffer programs (both classes, level/bound grids, every load/unload role assignment): the box contains every placement, hence every interleaving and tie; S and K against the reference walk, and the level sequence reported by solve() under pins for every admitted leaf",
